@@ -77,5 +77,13 @@ CLAIMED.update({
             "state-machine induction + lemmas over contracts (pyvc + z3)", "DESIGN.md 3 (C17), 9"),
 })
 
+CLAIMED.update({
+    "C19": ("proof", "every EnumMap table found in the tree under test is enumerated; item access, get and membership are proved for EVERY "
+            "letter-casing of every declared member name at once (symbolic casing through the real MapMeta code), code -> name lookups, "
+            "DataTypes.get_type, Services.from_reply and get_service_status over all 256 status bytes are finite and evaluated completely "
+            "through the same interpreter (exhaustive)", "contracts + VC generation over symbolic casings; complete ground evaluation for the finite parts",
+            "DESIGN.md 3 (C19), 9"),
+})
+
 if __name__ == "__main__":
     main()
